@@ -270,7 +270,8 @@ class Engine(object):
             self._steps = 0
             self._tyenv = {}
             res = self.run_body(st, body, list(args), 0, ("entry", 0))
-            out = [Path(*self.settle(s, r), entry=body.path) for (s, r) in res if not self.contradictory_emptiness(s)]
+            settled = [self.settle(s, r) for (s, r) in res]
+            out = [Path(s, r, entry=body.path) for (s, r) in settled if not self.contradictory_emptiness(s)]
             self.stat_paths += len(out)
             return out
         finally:
